@@ -154,7 +154,7 @@ Proof.
 Qed.
 
 Theorem wrap_phase_gindep whichA whichB stA stB :
-  (forall a b, view_sim a b -> whichA a = whichB b) -> GInv stA stB ->
+  (forall i a b, nth_error lvsA i = Some a -> nth_error lvsB i = Some b -> whichA a = whichB b) -> GInv stA stB ->
   GInv (wrap_phase WA infosA lines whichA stA) (wrap_phase WB infosB lines whichB stB).
 Proof.
   intros Hw H. unfold wrap_phase. fold lvsA lvsB k.
@@ -162,9 +162,302 @@ Proof.
             GInv (fold_left (fun st lv => if whichA lv then format_top WA lvsA (main_fuel WA) k st lv else st) lA sa)
                  (fold_left (fun st lv => if whichB lv then format_top WB lvsB (main_fuel WB) k st lv else st) lB sb)).
   { induction 1 as [|a b ra rb (i & Ha & Hb & _) Hr IH]; intros sa sb H0; [exact H0|]. cbn [fold_left]. apply IH.
-    pose proof (Forall2_nth_error _ _ _ Hviews2 i) as Hv. rewrite Ha, Hb in Hv. rewrite (Hw a b Hv).
+    rewrite (Hw i a b Ha Hb).
     destruct (whichB b); [exact (format_top_gindep i a b sa sb Ha Hb H0)|exact H0]. }
   apply Hgen; [|exact H].
   destruct (Forall2_indexed lvsA lvsB (Forall2_len _ _ _ Hviews2) [] []) as [Hf|Hf]; [exact Hf|cbn in Hf; congruence].
 Qed.
 End GPhase.
+
+(* ------------------------------------------------------------------ *)
+(* the log only grows *)
+Definition log_ext (st0 st : sst) : Prop := exists new, ss_log st = new ++ ss_log st0.
+
+Lemma log_ext_refl st : log_ext st st.
+Proof. exists []. reflexivity. Qed.
+
+Lemma log_ext_trans a b c : log_ext a b -> log_ext b c -> log_ext a c.
+Proof. intros (n1 & H1) (n2 & H2). exists (n2 ++ n1). rewrite H2, H1, app_assoc. reflexivity. Qed.
+
+Lemma format_top_log_ext W lvs fm d st lv : log_ext st (format_top W lvs fm d st lv).
+Proof.
+  unfold format_top. destruct (bid _); [apply log_ext_refl|].
+  match goal with |- context [solve W lvs fm d st lv ?ws ?fd] =>
+    pose proof (state_inv_solve (log_ext st) (fun st0 l o H => match H with ex_intro _ n Hn => ex_intro _ (Ev_S l o :: n) (f_equal (cons (Ev_S l o)) Hn) end)
+                  (fun st0 k v H => H) (fun st0 H => H) W lvs fm d st lv ws fd (log_ext_refl st)) as Hs;
+    destruct (solve W lvs fm d st lv ws fd) as [st1 r] end.
+  cbn [fst] in Hs. destruct r as [s|]; [|exact Hs]. eapply log_ext_trans; [exact Hs|].
+  destruct (sst_log_fold (recon_events lvs s (lv_gtoks lv)) st1) as (L1 & _). exists (rev (recon_events lvs s (lv_gtoks lv))). exact L1.
+Qed.
+
+Lemma wrap_phase_log_ext W infos lines which st : log_ext st (wrap_phase W infos lines which st).
+Proof.
+  unfold wrap_phase. generalize (mk_lviews infos lines) at 2 as l. generalize (mk_lviews infos lines) as lvs. intros lvs l. revert st.
+  induction l as [|lv r IH]; intros st; [apply log_ext_refl|]. cbn [fold_left]. eapply log_ext_trans; [|apply IH].
+  destruct (which lv); [apply format_top_log_ext|apply log_ext_refl].
+Qed.
+
+(* ------------------------------------------------------------------ *)
+(* the counters of two vectors that differ in token contents only *)
+Definition fsim (l l' : list ftoken) : Prop := Forall2 (fun x y : ftoken => snd x = snd y) l l'.
+
+Lemma fsim_refl l : fsim l l.
+Proof. induction l; constructor; [reflexivity|assumption]. Qed.
+Lemma fsim_sym l l' : fsim l l' -> fsim l' l.
+Proof. induction 1; constructor; [symmetry; assumption|assumption]. Qed.
+Lemma fsim_trans a b c : fsim a b -> fsim b c -> fsim a c.
+Proof. intros H. revert c. induction H as [|x y r1 r2 Hxy Hr IH]; intros c Hc; inversion Hc; subst; constructor; [congruence|apply IH; assumption]. Qed.
+Lemma fsim_map l l' : fsim l l' -> map snd l = map snd l'.
+Proof. induction 1 as [|x y r1 r2 Hxy Hr IH]; [reflexivity|]. cbn [map]. rewrite Hxy, IH. reflexivity. Qed.
+
+Lemma upd_ftok_fsim g : forall l l' i, fsim l l' -> fsim (upd_ftok i g l) (upd_ftok i g l').
+Proof.
+  induction l as [|[t f] r IH]; intros l' i H; inversion H as [|? [t' f'] ? r' Hxy Hr]; subst; [destruct i; constructor|].
+  cbn [snd] in Hxy. subst f'. destruct i as [|i]; cbn [upd_ftok]; constructor; try reflexivity; [exact Hr|apply IH; exact Hr].
+Qed.
+
+Lemma apply_plan_fsim p : forall l l', fsim l l' -> fsim (apply_plan p l) (apply_plan p l').
+Proof. unfold apply_plan. induction p as [|pd r IH]; intros l l' H; [exact H|]. cbn [fold_left]. apply IH. apply upd_ftok_fsim. exact H. Qed.
+
+Lemma respace_fsim : forall sp l l', fsim l l' -> fsim (respace sp l) (respace sp l').
+Proof.
+  intros sp l. revert sp. induction l as [|[t f] r IH]; intros sp l' H; inversion H as [|? [t' f'] ? r' Hxy Hr]; subst; [destruct sp; constructor|].
+  cbn [snd] in Hxy. subst f'. destruct sp as [|s ss]; cbn [respace]; [exact H|]. constructor; [reflexivity|apply IH; exact Hr].
+Qed.
+
+Lemma upd_ftok_tok_fsim g : forall l i, fsim (upd_ftok_tok i g l) l.
+Proof. induction l as [|[t f] r IH]; intros i; [destruct i; constructor|]. destruct i as [|i]; cbn [upd_ftok_tok]; constructor; try reflexivity; [apply fsim_refl|apply IH]. Qed.
+
+Lemma ml_visit_fsim rs acc i : fsim (fst (ml_visit rs acc i)) (fst acc).
+Proof.
+  unfold ml_visit. destruct (nth_error (fst acc) i) as [[tok f]|]; [|apply fsim_refl]. destruct (f_ignored f); [apply fsim_refl|].
+  destruct (is_ml_string (t_ty tok)); [|apply fsim_refl]. destruct (rewrite_ml_token rs (f_ind f) (f_cont f) (t_content tok)) as [c|]; [|apply fsim_refl].
+  destruct (bytes_eqb c (t_content tok)); [apply fsim_refl|]. cbn [fst]. apply upd_ftok_tok_fsim.
+Qed.
+
+Lemma ml_lines_fsim rs all : forall rest i l acc, fsim (fst (ml_lines rs all rest i l acc)) l.
+Proof.
+  induction rest as [|ln r IH]; intros i l acc; [apply fsim_refl|]. cbn [ml_lines].
+  assert (Hf : forall toks a0, fsim (fst (fold_left (ml_visit rs) toks a0)) (fst a0)).
+  { induction toks as [|t ts IHt]; intros a0; [apply fsim_refl|]. cbn [fold_left]. eapply fsim_trans; [apply IHt|apply ml_visit_fsim]. }
+  specialize (Hf (ll_toks ln) (l, false)). destruct (fold_left (ml_visit rs) (ll_toks ln) (l, false)) as [l' ch]. cbn [fst] in Hf.
+  eapply fsim_trans; [apply IH|exact Hf].
+Qed.
+
+(* ------------------------------------------------------------------ *)
+(* the pieces of olf_model with format_multiline_strings = true *)
+Definition olf_a (W : wsettings) (lines : list lline) (l : list ftoken) : list ftoken :=
+  zero_line_starts (apply_plan (plan_of_events (rev (ss_log (wrap_phase1 W (map tokinfo_of l) lines)))) l).
+Definition olf_ml (rs : rsettings) (W : wsettings) (lines : list lline) (l : list ftoken) : list ftoken * list nat :=
+  ml_lines rs lines lines 0 (olf_a W lines l) [].
+(* the lines phase 2 reflows *)
+Definition olf_reflow (rs : rsettings) (W : wsettings) (lines : list lline) (l : list ftoken) : list nat :=
+  fold_left (fun acc x => insert_unique x acc) (snd (olf_ml rs W lines l)) [].
+Definition infos2_of (infos : list tokinfo) (b : list ftoken) : list tokinfo :=
+  map (fun pq : tokinfo * ftoken => mkTI (ti_ty (fst pq)) (ti_sp (fst pq)) (ti_len (fst pq)) (ml_measure (fst (snd pq)))) (combine infos b).
+(* what phase 2 reads of the tokens: the lengths of phase 1, the multi-line lengths after the string stage *)
+Definition olf_infos2 (rs : rsettings) (W : wsettings) (lines : list lline) (l : list ftoken) : list tokinfo :=
+  infos2_of (map tokinfo_of l) (fst (olf_ml rs W lines l)).
+
+Definition st_after1 (W : wsettings) (lines : list lline) (l : list ftoken) : sst :=
+  sst_log (Ev_Phase 2) (sst_log (Ev_Phase 1) (wrap_phase1 W (map tokinfo_of l) lines)).
+
+Lemma olf_model_true_unfold rs W lines l :
+  olf_model rs W true lines l =
+  match olf_reflow rs W lines l with
+  | [] => (fst (olf_ml rs W lines l), rev (ss_log (st_after1 W lines l)), ss_fuel_err (st_after1 W lines l))
+  | reflow =>
+      let st2 := wrap_phase2 W (olf_infos2 rs W lines l) lines reflow (st_after1 W lines l) in
+      let evs2 := firstn (length (ss_log st2) - length (ss_log (st_after1 W lines l))) (ss_log st2) in
+      (respace (map (fun p : ftoken => f_sp (snd p)) l) (apply_plan (plan_of_events (rev evs2)) (fst (olf_ml rs W lines l))),
+       rev (ss_log st2), ss_fuel_err st2)
+  end.
+Proof.
+  unfold olf_model, olf_reflow, olf_infos2, olf_ml, olf_a, st_after1, infos2_of.
+  destruct (ml_lines rs lines lines 0 _ []) as [b refl]. cbn [fst snd].
+  destruct (fold_left (fun acc x => insert_unique x acc) refl []); reflexivity.
+Qed.
+
+Lemma infos2_types infos b : length infos = length b -> map ti_ty (infos2_of infos b) = map ti_ty infos.
+Proof.
+  unfold infos2_of. revert b. induction infos as [|x r IH]; intros [|y b] H; try discriminate; [reflexivity|].
+  cbn [combine map fst ti_ty]. f_equal. apply IH. cbn [length] in H. lia.
+Qed.
+
+Definition bound_m (lvs : list lview) (m indw contw : N) : N :=
+  file_IB lvs * indw + file_CB lvs * contw + m * list_max (span_list lvs 0).
+
+Lemma run_bounds_m_mono W lvs m m' SW LV IB CB span : m <= m' -> run_bounds W lvs m SW LV IB CB span -> run_bounds W lvs m' SW LV IB CB span.
+Proof.
+  intros Hm [R1 R2 R3 R4 R5]. constructor; try assumption. intros i lv r Hi Hr. destruct (R1 i lv r Hi Hr) as (A & B & C).
+  split; [lia|]. split; [intros x Hx; specialize (B x Hx); lia|exact C].
+Qed.
+
+Lemma cpre_top_m W lvs0 lvs m i lv fd :
+  length lvs0 = length lvs -> nth_error lvs i = Some lv -> lv_level lv <= file_LV lvs0 -> off fd = 0 ->
+  bound_m lvs0 m (w_indw W) (w_contw W) <= w_max W ->
+  cpre W m (file_SW lvs0) (file_LV lvs0) (file_IB lvs0) (file_CB lvs0) (file_span lvs0) (S (length lvs0)) i (lv_level lv, 0) fd.
+Proof.
+  intros Hlen Hi Hlv Hoff Hb.
+  split; [split; cbn [fst snd]; unfold file_IB, file_CB; lia|].
+  rewrite Hoff. unfold Wb, lws_len. cbn [fst snd]. unfold bound_m in Hb.
+  pose proof (list_max_nth (span_list lvs0 0) i) as Hs. unfold file_span. nia.
+Qed.
+
+Lemma upd_ftok_length g : forall l i, length (upd_ftok i g l) = length l.
+Proof. induction l as [|[t f] r IH]; intros [|i]; cbn [upd_ftok length]; try reflexivity. rewrite IH. reflexivity. Qed.
+
+Lemma apply_plan_length p : forall l, length (apply_plan p l) = length l.
+Proof. unfold apply_plan. induction p as [|pd r IH]; intros l; [reflexivity|]. cbn [fold_left]. rewrite IH. apply upd_ftok_length. Qed.
+
+(* ------------------------------------------------------------------ *)
+Section TwoPhase.
+Variables rsA rsB : rsettings.
+Variables WA WB : wsettings.
+Hypothesis Hiter : w_iter WA = w_iter WB.
+Hypothesis Hbbb : w_bbb WA = w_bbb WB.
+Variable lines : list lline.
+Hypothesis Hp : parents_ok lines = true.
+Variable l : list ftoken.
+Variables mA mB : N.
+
+Let infos := map tokinfo_of l.
+Let lvs := mk_lviews infos lines.
+Let infos2A := olf_infos2 rsA WA lines l.
+Let infos2B := olf_infos2 rsB WB lines l.
+
+(* the bound covers the lengths of both phases, under each setting *)
+Hypothesis HmA1 : file_m lvs <= mA.
+Hypothesis HmA2 : file_m (mk_lviews infos2A lines) <= mA.
+Hypothesis HbA : bound_m lvs mA (w_indw WA) (w_contw WA) <= w_max WA.
+Hypothesis HmB1 : file_m lvs <= mB.
+Hypothesis HmB2 : file_m (mk_lviews infos2B lines) <= mB.
+Hypothesis HbB : bound_m lvs mB (w_indw WB) (w_contw WB) <= w_max WB.
+(* the string stage marks the same lines for reflow under both settings *)
+Hypothesis Hreflow : olf_reflow rsA WA lines l = olf_reflow rsB WB lines l.
+
+Let SW := file_SW lvs.
+Let LV := file_LV lvs.
+Let IB := file_IB lvs.
+Let CB := file_CB lvs.
+Let span := file_span lvs.
+
+Lemma RB1 W m : file_m lvs <= m -> run_bounds W lvs m SW LV IB CB span.
+Proof. intros Hm. exact (run_bounds_m_mono W lvs _ m _ _ _ _ _ Hm (run_bounds_file W infos lines Hp)). Qed.
+
+Lemma Hlenl : length lvs = length lines.
+Proof. apply mk_lviews_length. Qed.
+
+Lemma Htop1 W m i lv fd : bound_m lvs m (w_indw W) (w_contw W) <= w_max W -> nth_error lvs i = Some lv -> off fd = 0 ->
+  cpre W m SW LV IB CB span (S (length lines)) i (lv_level lv, 0) fd.
+Proof.
+  intros Hb Hi Hoff. rewrite <- Hlenl. apply (cpre_top_m W lvs lvs m i lv fd eq_refl Hi); [|exact Hoff|exact Hb].
+  apply list_max_in. apply in_map. eapply nth_error_In. exact Hi.
+Qed.
+
+(* phase 1 *)
+Lemma phase1_ginv : GInv WA WB lines infos infos mA IB CB span mB IB CB span (wrap_phase1 WA infos lines) (wrap_phase1 WB infos lines).
+Proof.
+  apply (wrap_phase_gindep WA WB Hiter Hbbb lines infos infos eq_refl mA SW LV IB CB span mB SW LV IB CB span (RB1 WA mA HmA1) (RB1 WB mB HmB1)
+           (fun i lv fd Hi Ho => Htop1 WA mA i lv fd HbA Hi Ho) (fun i lv fd Hi Ho => Htop1 WB mB i lv fd HbB Hi Ho) lv_top lv_top sst_init sst_init).
+  - intros i a b Ha Hb. fold lvs in Ha, Hb. congruence.
+  - split; [apply sound_init|]. split; [intros key v []|]. split; [apply sound_init|]. split; [intros key v []|reflexivity].
+Qed.
+
+Lemma olf_a_eq : olf_a WA lines l = olf_a WB lines l.
+Proof.
+  unfold olf_a. fold infos. rewrite !plan_of_log. destruct phase1_ginv as (_ & _ & _ & _ & Hd). rewrite Hd. reflexivity.
+Qed.
+
+Lemma b_fsim : fsim (fst (olf_ml rsA WA lines l)) (fst (olf_ml rsB WB lines l)).
+Proof.
+  unfold olf_ml. rewrite olf_a_eq. eapply fsim_trans; [apply ml_lines_fsim|apply fsim_sym; apply ml_lines_fsim].
+Qed.
+
+Lemma olf_a_length W : length (olf_a W lines l) = length l.
+Proof. unfold olf_a, zero_line_starts. rewrite map_length. apply apply_plan_length. Qed.
+
+Lemma infos2_ty rs W : map ti_ty (olf_infos2 rs W lines l) = map ti_ty infos.
+Proof.
+  unfold olf_infos2. apply infos2_types. unfold infos. rewrite map_length, <- (olf_a_length W).
+  symmetry. exact (Forall2_len _ _ _ (ml_lines_fsim rs lines lines 0 (olf_a W lines l) [])).
+Qed.
+
+(* the state phase 1 left is a good starting state for phase 2 under the lengths of phase 2 *)
+Lemma phase2_start : GInv WA WB lines infos2A infos2B mA IB CB span mB IB CB span (st_after1 WA lines l) (st_after1 WB lines l).
+Proof.
+  destruct phase1_ginv as (S1 & C1 & S2 & C2 & Hd). fold lvs in S1, C1, S2, C2.
+  pose proof (mk_lviews_view_sim infos infos2A lines (eq_sym (infos2_ty rsA WA))) as VA.
+  pose proof (mk_lviews_view_sim infos infos2B lines (eq_sym (infos2_ty rsB WB))) as VB. fold lvs in VA, VB.
+  unfold st_after1. fold infos.
+  split; [|split; [|split; [|split]]].
+  - eapply sound_same_cache; [|exact (sound_transfer WA WA lvs _ _ eq_refl eq_refl VA (mk_lviews_wf infos lines Hp) (mk_lviews_wf infos2A lines Hp)
+                                        (mk_lviews_fun infos lines) (mk_lviews_fun infos2A lines) _ S1)]. reflexivity.
+  - eapply cache_bd_same'; [|exact (cache_bd_transfer WA lvs _ _ _ _ _ _ VA C1)]. reflexivity.
+  - eapply sound_same_cache; [|exact (sound_transfer WB WB lvs _ _ eq_refl eq_refl VB (mk_lviews_wf infos lines Hp) (mk_lviews_wf infos2B lines Hp)
+                                        (mk_lviews_fun infos lines) (mk_lviews_fun infos2B lines) _ S2)]. reflexivity.
+  - eapply cache_bd_same'; [|exact (cache_bd_transfer WB lvs _ _ _ _ _ _ VB C2)]. reflexivity.
+  - unfold Dlog. cbn [sst_log ss_log filter is_D]. exact Hd.
+Qed.
+
+Lemma RB2 rs W m : file_m lvs <= m -> file_m (mk_lviews (olf_infos2 rs W lines l) lines) <= m ->
+  run_bounds W (mk_lviews (olf_infos2 rs W lines l) lines) m SW LV IB CB span.
+Proof.
+  intros H1 H2.
+  apply (run_bounds_transfer W lvs _ m SW LV IB CB span (mk_lviews_view_sim infos _ lines (eq_sym (infos2_ty rs W))) (RB1 W m H1)).
+  - intros i lv' r' Hi Hr. destruct (rb_rec _ _ _ _ _ _ _ _ (run_bounds_file W (olf_infos2 rs W lines l) lines Hp) i lv' r' Hi Hr) as (A & B & _).
+    split; [lia|intros x Hx; specialize (B x Hx); lia].
+  - exact (mk_lviews_wf _ lines Hp).
+  - exact (mk_lviews_fun _ lines).
+Qed.
+
+Lemma Htop2 rs W m i lv fd : file_m lvs <= m -> file_m (mk_lviews (olf_infos2 rs W lines l) lines) <= m ->
+  bound_m lvs m (w_indw W) (w_contw W) <= w_max W -> nth_error (mk_lviews (olf_infos2 rs W lines l) lines) i = Some lv -> off fd = 0 ->
+  cpre W m SW LV IB CB span (S (length lines)) i (lv_level lv, 0) fd.
+Proof.
+  intros H1 H2 Hb Hi Hoff. rewrite <- Hlenl.
+  apply (cpre_top_m W lvs _ m i lv fd (eq_trans Hlenl (eq_sym (mk_lviews_length _ lines))) Hi); [|exact Hoff|exact Hb].
+  exact (rb_lvl _ _ _ _ _ _ _ _ (RB2 rs W m H1 H2) i lv Hi).
+Qed.
+
+(* both phases: the decision events agree up to the measured lengths, the final counters agree *)
+Theorem olf_model_two_phase_indep :
+  map snd (fst (fst (olf_model rsA WA true lines l))) = map snd (fst (fst (olf_model rsB WB true lines l)))
+  /\ map ev_erase (filter is_D (snd (fst (olf_model rsA WA true lines l)))) = map ev_erase (filter is_D (snd (fst (olf_model rsB WB true lines l)))).
+Proof.
+  rewrite !olf_model_true_unfold. rewrite <- Hreflow.
+  destruct phase2_start as (S1 & C1 & S2 & C2 & Hd).
+  destruct (olf_reflow rsA WA lines l) as [|x reflow] eqn:ER.
+  - cbn [fst snd]. split; [exact (fsim_map _ _ b_fsim)|]. rewrite !filter_rev, !map_rev. fold (Dlog (st_after1 WA lines l)). fold (Dlog (st_after1 WB lines l)). rewrite Hd. reflexivity.
+  - cbn zeta. cbn [fst snd].
+    pose proof (wrap_phase_gindep WA WB Hiter Hbbb lines infos2A infos2B (eq_trans (infos2_ty rsA WA) (eq_sym (infos2_ty rsB WB)))
+                  mA SW LV IB CB span mB SW LV IB CB span (RB2 rsA WA mA HmA1 HmA2) (RB2 rsB WB mB HmB1 HmB2)
+                  (fun i lv fd Hi Ho => Htop2 rsA WA mA i lv fd HmA1 HmA2 HbA Hi Ho) (fun i lv fd Hi Ho => Htop2 rsB WB mB i lv fd HmB1 HmB2 HbB Hi Ho)
+                  (fun lv => existsb (Nat.eqb (lv_idx lv)) (x :: reflow)) (fun lv => existsb (Nat.eqb (lv_idx lv)) (x :: reflow))
+                  (st_after1 WA lines l) (st_after1 WB lines l)) as HG.
+    assert (Hw : forall i a b, nth_error (mk_lviews infos2A lines) i = Some a -> nth_error (mk_lviews infos2B lines) i = Some b ->
+              existsb (Nat.eqb (lv_idx a)) (x :: reflow) = existsb (Nat.eqb (lv_idx b)) (x :: reflow)).
+    { intros i a b Ha Hb. rewrite (proj1 (mk_lviews_wf infos2A lines Hp i a Ha)), (proj1 (mk_lviews_wf infos2B lines Hp i b Hb)). reflexivity. }
+    specialize (HG Hw (conj S1 (conj C1 (conj S2 (conj C2 Hd))))). destruct HG as (_ & _ & _ & _ & Hd2).
+    fold infos2A infos2B. unfold wrap_phase2.
+    set (st2A := wrap_phase WA infos2A lines _ (st_after1 WA lines l)) in *.
+    set (st2B := wrap_phase WB infos2B lines _ (st_after1 WB lines l)) in *.
+    destruct (wrap_phase_log_ext WA infos2A lines (fun lv => existsb (Nat.eqb (lv_idx lv)) (x :: reflow)) (st_after1 WA lines l)) as (newA & LA). fold st2A in LA.
+    destruct (wrap_phase_log_ext WB infos2B lines (fun lv => existsb (Nat.eqb (lv_idx lv)) (x :: reflow)) (st_after1 WB lines l)) as (newB & LB). fold st2B in LB.
+    split.
+    + apply fsim_map. apply respace_fsim.
+      assert (HnA : firstn (length (ss_log st2A) - length (ss_log (st_after1 WA lines l))) (ss_log st2A) = newA)
+        by (rewrite LA, app_length, PeanoNat.Nat.add_sub, firstn_app, PeanoNat.Nat.sub_diag, firstn_all; cbn [firstn]; apply app_nil_r).
+      assert (HnB : firstn (length (ss_log st2B) - length (ss_log (st_after1 WB lines l))) (ss_log st2B) = newB)
+        by (rewrite LB, app_length, PeanoNat.Nat.add_sub, firstn_app, PeanoNat.Nat.sub_diag, firstn_all; cbn [firstn]; apply app_nil_r).
+      rewrite HnA, HnB.
+      assert (Hplan : plan_of_events (rev newA) = plan_of_events (rev newB)).
+      { unfold Dlog in Hd2, Hd. rewrite LA, LB, !filter_app, !map_app in Hd2. rewrite Hd in Hd2. apply app_inv_tail in Hd2.
+        rewrite <- (plan_of_events_filter (rev newA)), <- (plan_of_events_filter (rev newB)), !filter_rev.
+        rewrite <- (plan_of_events_erase (rev (filter is_D newA))), <- (plan_of_events_erase (rev (filter is_D newB))), !map_rev, Hd2. reflexivity. }
+      rewrite Hplan. apply apply_plan_fsim. exact b_fsim.
+    + rewrite !filter_rev, !map_rev. fold (Dlog st2A). fold (Dlog st2B). rewrite Hd2. reflexivity.
+Qed.
+End TwoPhase.
+
+Print Assumptions olf_model_two_phase_indep.
